@@ -581,6 +581,9 @@ def compound_reference(nm, a, res, T):
     if nm in ("q_iadd", "q_isub"):
         exp = [x + y if nm == "q_iadd" else x - y for x, y in zip(a[:4], a[4:])]
         return None if _close(res, exp, T * 16) else "%s per component: expected (i,j,k,r) %s" % (nm, exp)
+    if nm in ("q_iadds", "q_isubs"):   # quaternion +/- scalar acts on the real part
+        exp = list(a[:3]) + [a[3] + a[4] if nm == "q_iadds" else a[3] - a[4]]
+        return None if _close(res, exp, T * 16) else "%s must add the scalar to the real part only: expected (i,j,k,r) %s" % (nm, exp)
     if nm in ("q_imuls", "q_idivs"):
         exp = [x * a[4] if nm == "q_imuls" else x / a[4] for x in a[:4]]
         return None if _close(res, exp, T * 64) else "%s must scale every component: expected (i,j,k,r) %s" % (nm, exp)
@@ -690,7 +693,10 @@ def extra_stage(rep, ctx):
                 continue
             n += 1
             distinct.add(line)
-            msg = reference(w[0], [h2f(x) for x in w[1:]], res)
+            if w[0] in _ISIGS or w[0] in ("q_iadds", "q_isubs"):
+                msg = compound_reference(w[0], [h2f(x) for x in w[1:]], res, 3e-5)
+            else:
+                msg = reference(w[0], [h2f(x) for x in w[1:]], res)
             if msg and reported < 3:
                 reported += 1
                 rep.violation(dict(kind="property-oracle", ops=[line], impl=[o], args=[h2f(x) for x in w[1:]], detail=msg,
